@@ -2,6 +2,8 @@ package rules
 
 import (
 	"fmt"
+	"go/ast"
+	"go/token"
 	"go/types"
 	"reflect"
 	"regexp"
@@ -14,7 +16,7 @@ import (
 )
 
 func init() {
-	register(&Rule{ID: "C16", Run: runC16, Controls: controlsC16,
+	register(&Rule{ID: "C16", Run: runC16, Controls: controlsC16, ThoroughWhole: true,
 		Explanation: "Structural necessary conditions of 'the configuration hash tells apart exactly the configurations that differ', decided on pkg/prom and the type graph of the Prometheus configuration: " +
 			"R16.1 hash coverage: the type graph reachable from *config.Config is walked exactly as hashstructure v2 walks values (exported fields only, hash:\"-\"/\"ignore\" tags, pointers, slices, maps, interfaces through every implementing named type of the program, time.Time and Hashable special cases); every part of the configuration the walk cannot see (unexported fields, structs without exported fields, unhashable kinds) is a blind spot, classified by a frozen table; an unclassified blind spot is a violation; " +
 			"R16.2 the whole configuration with default options: the hashed value is the *config.Config that config.Load returned for the very bytes being applied, format V2, nil options; " +
@@ -503,4 +505,38 @@ func runC16(p *engine.Prog, r *engine.Report) {
 	}
 }
 
-func controlsC16(p *engine.Prog) []Control { return nil }
+func controlsC16(p *engine.Prog) []Control {
+	// hash only the scrape jobs instead of the whole configuration → R16.2
+	c1 := astControl(p, pkgProm, "hash a part of the configuration only", "C16/R16.2", func(n ast.Node, src []byte, off func(token.Pos) int) (int, int, string, bool) {
+		call, ok := n.(*ast.CallExpr)
+		if !ok || len(call.Args) != 3 {
+			return 0, 0, "", false
+		}
+		sel, ok := call.Fun.(*ast.SelectorExpr)
+		if !ok || sel.Sel.Name != "Hash" {
+			return 0, 0, "", false
+		}
+		if id, ok := sel.X.(*ast.Ident); !ok || id.Name != "hashstructure" {
+			return 0, 0, "", false
+		}
+		a := call.Args[0]
+		return off(a.Pos()), off(a.End()), string(src[off(a.Pos()):off(a.End())]) + ".ScrapeConfigs", true
+	})
+	// non-default options → R16.2
+	c2 := astControl(p, pkgProm, "hash with SlicesAsSets", "C16/R16.2", func(n ast.Node, src []byte, off func(token.Pos) int) (int, int, string, bool) {
+		call, ok := n.(*ast.CallExpr)
+		if !ok || len(call.Args) != 3 {
+			return 0, 0, "", false
+		}
+		sel, ok := call.Fun.(*ast.SelectorExpr)
+		if !ok || sel.Sel.Name != "Hash" {
+			return 0, 0, "", false
+		}
+		if id, ok := sel.X.(*ast.Ident); !ok || id.Name != "hashstructure" {
+			return 0, 0, "", false
+		}
+		a := call.Args[2]
+		return off(a.Pos()), off(a.End()), "&hashstructure.HashOptions{SlicesAsSets: true}", true
+	})
+	return []Control{c1, c2}
+}
